@@ -107,14 +107,16 @@ VF_PROPERTY(writer_bytes, 2, "CEncodedStreamWriter(encoding, BOM) fed with the t
 {
 	const int enc = static_cast<int>(c.src.draw(5)); const bool bom = c.src.coin(); const Scalars text = gen_text(c.src, 32, false);
 	const bool strict = c.src.coin();
-	std::ostringstream os; { CEncodedStreamWriter w(os, static_cast<UtfType>(enc), bom, strict ? UtfEncodingErrorPolicy::ThrowError : UtfEncodingErrorPolicy::Skip);
+	// the stream may already hold data (second document in one stream, file opened for append): the writer still emits BOM + text behind it
+	const std::string already = c.src.chance(1, 3) ? std::string(1 + c.src.draw(20), '#') : std::string(); if (!already.empty()) c.label("stream-already-holds-data");
+	std::ostringstream os; os << already; { CEncodedStreamWriter w(os, static_cast<UtfType>(enc), bom, strict ? UtfEncodingErrorPolicy::ThrowError : UtfEncodingErrorPolicy::Skip);
 		size_t i = 0; while (i < text.size()) { size_t n = 1 + c.src.draw(7); Scalars part = text.substr(i, n); i += part.size();
 			// history on the same writer: a rejected Write (strict policy, ill-formed UTF-8 after a valid prefix; transcoding targets only) must write nothing and leave nothing behind
 			if (strict && enc != refutf::U8 && c.src.chance(1, 5)) { static const char* bad[] = { "row-1;\xFFtail", "ab\xC3", "x\xED\xA0\x80y", "valid prefix \xF8" }; const std::string before = os.str(); const auto rc = w.Write(std::string(bad[c.src.draw(4)])); c.label("after-a-rejected-write");
 				if (rc == UtfEncodingErrorCode::Success) c.fail("writer accepts ill-formed text under the strict policy", refutf::enc_name(enc)); if (os.str() != before) c.fail("a rejected Write() changed the stream", vf::cat(refutf::enc_name(enc), " ", os.str().size() - before.size(), " bytes appeared")); }
 			UtfEncodingErrorCode rc; switch (c.src.draw(3)) { case 0: rc = w.Write(native<char>(part)); break; case 1: rc = w.Write(native<char16_t>(part)); break; default: rc = w.Write(native<char32_t>(part)); break; }
 			if (rc != UtfEncodingErrorCode::Success) c.fail("writer reports an error for valid text", refutf::show(part)); } }
-	const std::string want = (bom ? refutf::bom_bytes(enc) : std::string()) + refutf::enc_bytes(text, enc);
+	const std::string want = already + (bom ? refutf::bom_bytes(enc) : std::string()) + refutf::enc_bytes(text, enc);
 	bool astral = false; for (auto ch : text) if (ch >= 0x10000) astral = true;
 	c.nontrivial = astral || enc != refutf::U8; c.describe(vf::cat("writer ", refutf::enc_name(enc), bom ? "+bom " : "-bom ", refutf::show(text.substr(0, 12)), " h=", vf::hash_bytes(want.data(), want.size())));
 	if (os.str() != want) c.fail("writer output is not BOM + the configured encoding of the text", vf::cat(refutf::enc_name(enc), " got=", vf::hex(os.str().substr(0, 100)), " want=", vf::hex(want.substr(0, 100))));
